@@ -173,6 +173,16 @@ class World:
         assert I32MIN <= v <= I32MAX
         return v
 
+    def in_premise(self, op):
+        """no sum outside int32"""
+        if op[0] == REFUSE:
+            op = op[3]
+        k, u = op[0], op[1]
+        if k != DE or not self.valid(u):
+            return True
+        m = op[2]
+        return (m < 0 and self.bal[u] < -m) or I32MIN <= self.bal[u] + m <= I32MAX
+
     def step(self, op):
         """expected (status, value, code); value None = not fixed by the property; None = outcome not fixed at all"""
         k, u = op[0], op[1]
@@ -302,8 +312,8 @@ def op_group(o):
     return " ".join(" ".join(str(b) for b in x) if isinstance(x, (bytes, bytearray)) else str(x) for x in o)
 
 
-def case_line(ftoks, ops):
-    return "1|" + ftoks + "".join("|" + op_group(o if o[0] not in (GET, QUERY) else o[:2]) for o in ops)
+def case_line(ftoks, ops, head="1"):
+    return head + "|" + ftoks + "".join("|" + op_group(o if o[0] not in (GET, QUERY) else o[:2]) for o in ops)
 
 
 def judge(init, L, ops, line):
@@ -332,6 +342,8 @@ def judge(init, L, ops, line):
         file_before = w.field(w.cur, u) if w.valid(u) else None
         out3, fld, shm, flen, d = obs[i + 1]
         what = describe(op, L)
+        if not w.in_premise(op):
+            return None          # from here on a sum leaves int32 (the implementation kept the old balance at a refused write, which it may): not a history of the property
         if kind == REFUSE and w.valid(u) and out3[0] == 0:
             # the call claims success although nothing could be written: that is only right when nothing needed writing, i.e.
             # when everything the operation itself would have left is already there (decided below, byte by byte)
@@ -412,6 +424,94 @@ def judge(init, L, ops, line):
                 prob = ("after %s PasswdQuery(%d).Money = %d, arithmetic says %d" % (what, u, fld, want_fld), str(want_fld), str(fld))
         if prob is not None:
             return (i, cls, prob[0], prob[1], prob[2])
+    return None
+
+LAYOUTS = {1: "an absolute symbolic link to the record file in another directory", 2: "a relative symbolic link to a file next to it", 3: "a chain of two symbolic links to the record file"}
+
+
+def par_rounds(pops, mode):
+    """the rounds of a kind-6 case as the driver forms them: lists of indices into pops"""
+    if mode == 0:
+        return [list(range(len(pops)))]
+    order, per = [], {}
+    for i, o in enumerate(pops):
+        if o[0] not in per:
+            order.append(o[0])
+        per.setdefault(o[0], []).append(i)
+    return [[per[g][r] for g in order if r < len(per[g])] for r in range(max(len(v) for v in per.values()))] if pops else []
+
+
+def par_line(ftoks, pops, mode):
+    return "6 %d|%s" % (mode, ftoks) + "".join("|%d %d %d" % (g, k, u) + (" %d" % m if k != GET else "") for g, k, u, m in pops)
+
+
+def par_parse(line, maxu, rounds):
+    """-> (status, held, obs0, [(outs, obs)]) with obs = (segment, file length, differing bytes)"""
+    t = [int(x) for x in line.split()]
+    if t[0] != 0:
+        return t[0], 0, None, []
+    i = 2
+
+    def obs():
+        nonlocal i
+        shm = {u + 1: v for u, v in enumerate(t[i:i + maxu])}; i += maxu
+        flen, n = t[i], t[i + 1]; i += 2
+        d = {t[i + 2 * k]: t[i + 2 * k + 1] for k in range(n)}; i += 2 * n
+        return shm, flen, d
+    o0 = obs()
+    out = []
+    for r in rounds:
+        n = t[i]; i += 1
+        assert n == len(r), (n, len(r))
+        outs = [tuple(t[i + 3 * k:i + 3 * k + 3]) for k in range(n)]; i += 3 * n
+        out.append((outs, obs()))
+    assert i == len(t), (i, len(t))
+    return 0, t[1], o0, out
+
+
+def par_describe(pops, idx, L):
+    return ["goroutine %d: %s" % (pops[i][0], describe(pops[i][1:], L)) for i in idx]
+
+
+def judge_par(init, L, pops, mode, line):
+    """Several goroutines of one process, each on slots of its own. Operations on different slots commute, so plain arithmetic
+    is the per-slot history in program order. -> None | (round, key, text, expected, got)"""
+    rounds = par_rounds(pops, mode)
+    st, held, o0, robs = par_parse(line, L.maxu, rounds)
+    if st != 0:
+        return (0, "driver", "case status %d" % st, "0", str(st))
+    w = World(init, L)
+    if any(o0[0][u] != w.bal[u] for u in w.bal) or o0[1] != len(init) or o0[2]:
+        return (0, "load", "after a cold load the segment differs from .PASSWDS", "", "")
+    for ri, (idx, (outs, (shm, flen, d))) in enumerate(zip(rounds, robs)):
+        how = "%d goroutines of one process %s" % (len({pops[i][0] for i in idx}), "run free" if mode == 0 else "are all held by the kernel inside open(.PASSWDS) and then let go")
+        before = dict(w.bal)
+        for i, o3 in zip(idx, outs):
+            op = pops[i][1:]
+            u = op[1]
+            exp = w.step(op)
+            what = "goroutine %d: %s" % (pops[i][0], describe(op, L))
+            if exp is None:
+                continue
+            if exp[0] == 3 and o3[0] != 3:
+                return (ri, "parallel-invalid-slot", "%s must return an error (invalid slot); status %d  [%s]" % (what, o3[0], how), "status 3", "status %d" % o3[0])
+            if exp[0] == 0 and o3[0] != 0:
+                return (ri, "parallel-goroutines-fail", "%s on a valid slot (balance %d) fails: status %d code %d  [%s, each on a slot of its own]" % (what, before.get(u, 0), o3[0], o3[2], how), "0 %s" % exp[1], "%d %d %d" % o3)
+            if exp[0] == 0 and exp[1] is not None and o3[1] != exp[1]:
+                return (ri, "parallel-goroutines-return", "%s with balance %d returns %d, arithmetic says %d  [%s, each on a slot of its own]" % (what, before.get(u, 0), o3[1], exp[1], how), str(exp[1]), str(o3[1]))
+        want_d = w.expected_diffs()
+        bad = [u for u in range(1, L.maxu + 1) if shm[u] != w.bal[u] or w.field(w.cur, u) != struct.unpack("<i", bytes(d.get(k, init[k]) if d.get(k, init[k]) >= 0 else 0 for k in range(w.pos(u), w.pos(u) + 4)))[0]]
+        if bad:
+            u = bad[0]
+            got_f = struct.unpack("<i", bytes(d.get(k, init[k]) if d.get(k, init[k]) >= 0 else 0 for k in range(w.pos(u), w.pos(u) + 4)))[0]
+            mine = [i for i in idx if pops[i][2] == u]
+            return (ri, "parallel-goroutines-agree", "after %s, each working on a slot of its own, the three views of slot %d's balance disagree: shared memory %d, Money field of the record in .PASSWDS %d, "
+                    "arithmetic %d (balance before: %d; the only operation(s) on this slot: %s; the others: %s)" % (
+                        how, u, shm[u], got_f, w.bal[u], before.get(u, 0), par_describe(pops, mine, L), par_describe(pops, [i for i in idx if i not in mine][:6], L)),
+                    str({x: w.bal[x] for x in bad[:8]}), str({"shm": {x: shm[x] for x in bad[:8]}, "file bytes": sorted(d.items())[:32]}))
+        if d != want_d or flen != len(init):
+            offs = sorted(set(d.items()) ^ set(want_d.items()))
+            return (ri, "parallel-goroutines-frame", "after %s .PASSWDS differs from arithmetic outside the Money fields at byte offsets %s" % (how, [o for o, _ in offs][:8]), str(sorted(want_d.items())[:32]), str(sorted(d.items())[:32]))
     return None
 
 
@@ -654,6 +754,86 @@ def main():
                          "(returns, every balance of the segment, every changed byte of .PASSWDS)",
                       ["1|<%s>|%s" % (f, " | ".join(str(short(o)) for o in ops)) for f, ops in cases], io, mo)
 
+    # ---------------------------------------------------------------- .PASSWDS is a symbolic link to the record file
+    # (kind 5: the same histories, the same observation through the name, the same judge). Every slot x three layouts.
+    lcases = []     # (file name, ops, layout)
+    for u in range(1, maxu + 1):
+        lay = 1 + u % 3
+        md = 1 + u % 2
+        lcases.append(("fixture", [(SET, u, 5 + u), (DE, u, -3), (DE, u, -(u + 9)), (DE, u, 7), (GET, u, 0), (REFUSE, u, md, (SET, u, 250)), (SET, u, 250), (START, u), (DE, u, 500), (END, u, 1),
+                                   (REWRITE, u, zero_rec), (PLANTFILE, u, 77), (DE, u, 0), (SET, u, I32MAX), (DE, u, -I32MAX), (DE, u, I32MIN + 1)], lay))
+    for lay in (1, 2, 3):
+        lcases.append(("fixture+edge-balances", [(k, u, 7) for u in (0, -1, maxu + 1) for k in (SET, DE)] + [(REWRITE, maxu + 1, zero_rec), (GET, 1, 0), (GET, maxu, 0)], lay))
+    for i in range(600 if thorough else 24):
+        fname = names[i % len(names)]
+        pool = [1, 2, maxu - 1, maxu] if i % 3 else sorted(rng.sample(range(1, maxu + 1), 3) + [maxu])
+        gen = (lambda: gen_history(fname, rng.randrange(1, 40), pool + [0, maxu + 1]), lambda: gen_writer_history(fname, rng.randrange(2, 20), pool), lambda: gen_disagree_history(fname, rng.randrange(3, 20), pool))[i % 3]
+        lcases.append((fname, gen(), 1 + i % 3))
+    llines = [case_line(ftoks[f], ops, "5 %d" % lay) for f, ops, lay in lcases]
+    lio = vf.run_impl(impl, "C20", llines, deadline_ms=60000)
+    if model:
+        vf.correspond(c, "the same kinds of histories with .PASSWDS a symbolic link to the record file (absolute / relative / chain of two): the model speaks about the bytes behind the name",
+                      ["5 %d|<%s>|%s" % (lay, f, " | ".join(str(short(o)) for o in ops)) for f, ops, lay in lcases], lio, vf.run_model(model, [case_line(ftoks[f], ops) for f, ops, _ in lcases]))
+
+    # ---------------------------------------------------------------- several goroutines of ONE process, each on slots of its own (kind 6)
+    pcases = []     # (file name, pops, mode)    pops: (goroutine, kind, slot, amount)
+    for u in list(range(1, maxu)) + [maxu]:
+        v = u + 1 if u < maxu else 1
+        pcases.append(("fixture", [(0, SET, u, 1000 + u), (1, SET, v, 2005 + u), (0, DE, u, 7), (1, DE, v, -6), (0, DE, u, -5000), (1, DE, v, 11), (0, GET, u, 0), (1, SET, v, 0)], 1))
+
+    def gen_par(fname, ng, nops, extra_invalid):
+        w = World(files[fname], L)
+        slots = rng.sample(range(1, maxu + 1), 2 * ng)
+        if rng.random() < 0.5 and maxu not in slots:
+            slots[0] = maxu
+        if rng.random() < 0.5 and 1 not in slots:
+            slots[1] = 1
+        pops = []
+        for r in range(nops):
+            for g in range(ng):
+                u = rng.choice(slots[2 * g:2 * g + 2])
+                k, u, m = money_step(w, fname, u, allow_query=False)
+                w.step((k, u, m))
+                pops.append((g, k, u, m))
+            if extra_invalid and r == 0:
+                pops.append((ng, rng.choice([SET, DE]), rng.choice([0, -1, maxu + 1]), 7))
+        return pops
+    for i in range(400 if thorough else 24):
+        fname = ("fixture", "zero", "fixture+edge-balances")[i % 3]
+        pcases.append((fname, gen_par(fname, rng.choice([2, 3, 8, 16]), rng.randrange(1, 7), i % 4 == 0), 1))
+    for i in range(40 if thorough else 4):
+        fname = ("zero", "fixture")[i % 2]
+        pcases.append((fname, gen_par(fname, rng.choice([4, 8, 16]) if thorough else (4, 8)[i % 2], 150 if thorough else 50, False), 0))
+    plines = [par_line(ftoks[f], pops, mode) for f, pops, mode in pcases]
+    pio = vf.run_impl(impl, "C20", plines, deadline_ms=300000)
+    if model:
+        # every interleaving of whole operations is a history of the model; the implementation's returns and final state must be those
+        # of the history that lists the operations in case order (operations on different slots commute)
+        def proj_impl(line, pops, mode):
+            st, held, o0, robs = par_parse(line, maxu, par_rounds(pops, mode))
+            if st != 0:
+                return line
+            outs = [o for r in robs for o in r[0]]
+            shm, flen, d = robs[-1][1]
+            return " ".join(str(x) for x in [0] + [y for o in outs for y in o] + [shm[u] for u in range(1, maxu + 1)] + [flen, len(d)] + [y for k in sorted(d) for y in (k, d[k])])
+
+        def proj_model(line, pops, mode):
+            st, obs = parse_result(line, maxu, len(pops))
+            if st != 0:
+                return line
+            order = [i for r in par_rounds(pops, mode) for i in r]
+            outs = [obs[order.index(i) + 1][0] for i in order]
+            _, _, shm, flen, d = obs[-1]
+            return " ".join(str(x) for x in [0] + [y for o in outs for y in o] + [shm[u] for u in range(1, maxu + 1)] + [flen, len(d)] + [y for k in sorted(d) for y in (k, d[k])])
+        seq = [[pops[i][1:] for r in par_rounds(pops, mode) for i in r] for _, pops, mode in pcases]
+        pmo = vf.run_model(model, [case_line(ftoks[f], ops) for (f, _, _), ops in zip(pcases, seq)])
+        vf.correspond(c, "money operations from several goroutines of one process, each on slots of its own (returns and final state against the model's run of the same operations as one history)",
+                      ["6 %d|<%s>|%s" % (mode, f, pops[:24]) for f, pops, mode in pcases], [proj_impl(l, pp, md) for l, (_, pp, md) in zip(pio, pcases)], [proj_model(l, pp, md) for l, (_, pp, md) in zip(pmo, pcases)])
+    leases_held = sum(1 for l, (_, _, md) in zip(pio, pcases) if md == 1 and l.split()[:2] == ["0", "1"])
+    c.cov["parallel"] = {"cases": len(pcases), "lock-step cases": sum(1 for x in pcases if x[2] == 1), "lock-step cases in which every round was held by a read lease on .PASSWDS": leases_held,
+                         "operations": sum(len(x[1]) for x in pcases)}
+    c.cov["symlinked .PASSWDS"] = {"histories": len(lcases), "layouts": LAYOUTS}
+
     # incomplete .PASSWDS (fewer records than MAX_USERS): outside the property's premise, model and code must still agree
     shortf = [("fixture", 10 * recsz, [(SET, 3, 9), (SET, 20, 4), (DE, 20, -1), (SET, maxu - 1, 1)]), ("random", recsz * 7 + 100, [(SET, 8, 77), (DE, 8, -80), (GET, 30, 0)]),
               ("fixture", 10 * recsz, [(START, 3), (DE, 3, 9), (END, 3, 1), (REWRITE, 12, zero_rec), (PASSWD, 14, bytes(L.pwlen)), (GET, 12, 0)])]
@@ -824,7 +1004,7 @@ def main():
         small.append((maxu, i % 2, pl, gen_disagree_history(None, rng.randrange(4, 30), [u for u, _ in pl], init=ini, Lx=L)))
     run_big(impl, 0, L, small, "default build", "default")
 
-    def first_failure(fname, ops):
+    def first_failure(fname, ops, head="1"):
         # an END needs its START: a trial history that lost it is not a history
         open_ = set()
         for o in ops:
@@ -835,39 +1015,75 @@ def main():
                     return None
                 open_.discard(o[1])
         try:
-            return judge(files[fname], L, ops, vf.run_impl(impl, "C20", [case_line(ftoks[fname], ops)])[0])
+            return judge(files[fname], L, ops, vf.run_impl(impl, "C20", [case_line(ftoks[fname], ops, head)])[0])
         except AssertionError:      # a shortened history whose sums leave int32 is not a history of the property
             return None
 
-    for ci_, ((fname, ops), line) in enumerate(zip(cases, io)):
+    everything = [(f, ops, line, "1", "") for (f, ops), line in zip(cases, io)] + [(f, ops, line, "5 %d" % lay, "symlinked-passwds-") for (f, ops, lay), line in zip(lcases, lio)]
+    for ci_, (fname, ops, line, head, kp) in enumerate(everything):
         w = World(files[fname], L)
         nwriters = 0
         for op in ops:
-            c.nontrivial((op, w.bal.get(op[1])))
+            c.nontrivial((head, op, w.bal.get(op[1])) if kp else (op, w.bal.get(op[1])))
             nwriters += op[0] not in MONEY_OPS
             w.step(op)
-        c.count(len(ops) - nwriters, "sweep steps" if ci_ < n_sweep else "generated-history steps")
+        c.count(len(ops) - nwriters, "steps with .PASSWDS a symbolic link" if kp else "sweep steps" if ci_ < n_sweep else "generated-history steps")
         c.count(nwriters, "record-writer steps between money operations")
         bad = judge(files[fname], L, ops, line)
         if bad is None:
             continue
         step, key, text, exp, got = bad
-        if key in seen_keys:
+        if kp + key in seen_keys:
             continue
-        seen_keys.add(key)
+        seen_keys.add(kp + key)
         # shrink: the prefix up to the failing step, then drop earlier operations while the same class still fails
         cur = ops[:step + 1]
         j = 0
         while j < len(cur) - 1 and len(cur) > 1:
             trial = cur[:j] + cur[j + 1:]
-            b2 = first_failure(fname, trial)
+            b2 = first_failure(fname, trial, head)
             if b2 is not None and b2[1] == key and b2[0] == len(trial) - 1:
                 cur, (step, key, text, exp, got) = trial, b2
             else:
                 j += 1
-        c.violation(key, "%s  [initial .PASSWDS: %s; history: %s]" % (text, fname, [describe(o, L) for o in cur]),
-                    {"cases": [case_line(ftoks[fname], cur)], "history": [short(o) for o in cur], "history_readable": [describe(o, L) for o in cur], "initial_file": fname,
-                     "expected": expected_line(files[fname], L, cur), "expected_observation": exp, "got_observation": got})
+        where = "" if not kp else "[BBSHOME/.PASSWDS is %s] " % LAYOUTS[int(head.split()[1])]
+        c.violation(kp + key, "%s%s  [initial .PASSWDS: %s; history: %s]" % (where, text, fname, [describe(o, L) for o in cur]),
+                    {"cases": [case_line(ftoks[fname], cur, head)], "history": [short(o) for o in cur], "history_readable": [describe(o, L) for o in cur], "initial_file": fname,
+                     "layout": where.strip(), "expected": expected_line(files[fname], L, cur), "expected_observation": exp, "got_observation": got})
+
+    for (fname, pops, mode), line in zip(pcases, pio):
+        for g, k, u, m in pops:
+            c.nontrivial(("par", mode, g, k, u, m))
+        c.count(len(pops), "operations issued by concurrent goroutines of one process")
+        bad = judge_par(files[fname], L, pops, mode, line)
+        if bad is None:
+            continue
+        ri, key, text, exp, got = bad
+        if key in seen_keys:
+            continue
+        seen_keys.add(key)
+        cur = pops
+
+        def par_fails(tr):
+            try:
+                b2 = judge_par(files[fname], L, tr, mode, vf.run_impl(impl, "C20", [par_line(ftoks[fname], tr, mode)], deadline_ms=300000)[0])
+            except AssertionError:
+                return None
+            return b2 if b2 is not None and b2[1] == key else None
+        if mode == 1:
+            # the failing round alone, then one goroutine less at a time (the held schedule is deterministic)
+            tr = [pops[i] for i in par_rounds(pops, mode)[ri]]
+            b2 = par_fails(tr) if len(tr) < len(cur) else None
+            if b2 is not None:
+                cur, (ri, _, text, exp, got) = tr, b2
+            for g in sorted({o[0] for o in cur}):
+                tr = [o for o in cur if o[0] != g]
+                b2 = par_fails(tr) if len({o[0] for o in tr}) >= 2 else None
+                if b2 is not None:
+                    cur, (ri, _, text, exp, got) = tr, b2
+        c.violation(key, "%s  [initial .PASSWDS: %s; case: %s]" % (text, fname, par_describe(cur, range(len(cur)), L)[:12]),
+                    {"cases": [par_line(ftoks[fname], cur, mode)], "mode": "lock step, every round held inside open(2) by a read lease" if mode == 1 else "free running", "operations (goroutine, kind, slot, amount)": [list(o) for o in cur[:64]],
+                     "expected_observation": exp, "got_observation": got})
     c.sample({"initial_file": cases[n_sweep][0], "history (kind 1 set, 2 credit/debit, 3 MoneyOf, 4 ptt.GetUser; slot; amount)": [short(o) for o in cases[n_sweep][1][:12]],
               "result_prefix": " ".join(io[n_sweep].split()[:70])})
     c.sample({"initial_file": "fixture", "history": [short(o) for o in cases[maxu - 1][1]], "note": "one of the per-slot sweeps (last slot)"})
@@ -898,8 +1114,19 @@ def main():
                   "Production build: a second driver built with -tags 'verif docker' (MAX_USERS = 2 000 000) runs the same kinds of histories on a sparse 1 GB .PASSWDS (one real LoadUHash cold "
                   "load per quick run, the other cases put the planted balances into the segment directly) over slots {1, 2, 65535, 65536, 65537, 65538, 70000, 1000000, MAX-1, MAX} and random "
                   "slots above 65 536; after every step EVERY non-zero balance of the 2 000 000-entry segment and EVERY non-zero byte of the file (data extents) are compared with arithmetic, and the "
-                  "returns / balances / Money fields with the size-generic model" % (maxu * recsz),
-             assumptions=["one process at a time updates a balance (concurrent updates are outside the property)", ".PASSWDS exists with MAX_USERS records (short files are exercised for the correspondence only)",
+                  "returns / balances / Money fields with the size-generic model. Symbolic link: the same kinds of histories (every slot x a 16-operation history with a refused write, a write-back, a planted "
+                  "file balance; generated money / writer / disagreement histories) run with BBSHOME/.PASSWDS being an absolute link into another directory, a relative link, or a chain of two links; observed "
+                  "through the name, judged by the same predicate, compared with the model's run of the same history; the name must still be the link afterwards. Several goroutines of one process (kind 6): "
+                  "each goroutine works on slots of its own; lock-step cases (every adjacent pair of slots and (MAX_USERS, 1) x set / credit / debit / clamping debit; generated cases with 2..16 goroutines, an "
+                  "invalid slot among them) hold every round still inside open(2) with a read lease (fcntl F_SETLEASE) on .PASSWDS until every goroutine of the round is blocked in openat or has returned, then "
+                  "let all go; free-running cases (4-8 goroutines x 50 rounds; more in the thorough tier) add the unheld interleavings; after every round returns, every balance of the segment and every changed "
+                  "byte of the file are compared with per-slot arithmetic (operations on different slots commute: C20_interleaving_independent), and returns + final state with the model's run of the operations as one history" % (maxu * recsz),
+             assumptions=["two concurrent updates of the SAME balance are outside the property; concurrent operations on DIFFERENT users inside one process are exercised (kind 6), not proved: the theorems treat an operation "
+                          "as a whole (any interleaving of whole operations is a history; C20_interleaved_whole_operations), that the Go code shares no state between two calls of one process is VALIDATION - "
+                          "deterministically at the schedule point 'every goroutine has done what precedes its open of .PASSWDS, none has written' (held by a kernel read lease; needs a file system with leases "
+                          "and /proc/self/task/*/syscall - evidence coverage 'parallel' says in how many cases every round was held), and by free-running rounds at whatever interleavings the machine produces; other schedule points "
+                          "inside an operation (between seek and write, inside logrus) are reached only by the free-running rounds; several goroutines are not run on the docker build or through the record writers",
+                          "how the name .PASSWDS resolves (symbolic links, absolute / relative / chained) is kernel behaviour: the theorems speak about the bytes behind the name, the link layouts are validation (default build only)", ".PASSWDS exists with MAX_USERS records (short files are exercised for the correspondence only)",
                           "a refused write is produced by renaming .PASSWDS away or by pointing its path to /dev/full for the duration of one call; a failure in the middle of the 4-byte write (torn write) is not produced",
                           "docker build: records of the sparse .PASSWDS other than the planted ones are zero (free slots, balance 0); LoadUHash skips the Money of free slots beyond the first 1000 free ones, "
                           "so a FREE slot with a left-over balance far into the file starts in disagreement after a cold load - that start state is represented by the planted-file-balance operation, not by a real load",
